@@ -258,6 +258,145 @@ def _shape(toks):
     return ' '.join(out)
 
 
+# ------------------------------------------------------------------------------------------------ literals that cannot be interpreted
+BAD_LITERALS = {
+    # column type -> (column, its registered value, literals)
+    'Bool': ('IsDir', ['maybe', '2', 'TRUE', 'tru', '-1', 'yes ', 'on', 'nul']),
+    'DateTime': ('Modified', ['-ab', '+x', '-', '+', '٢٠٢٣-01-01', '2021-01-01 ٢٣', '2021-13-45', '2021-02-30', '2021-01-01 25', '2021-01-01 10:61', '2021-01-01 10:10:61', '0000-00-00',
+                              'garbage', 'yesterdayx', '+1', '-999', '1969-12-31', '9999-12-31', 'x']),
+    'Int': ('Size', ['abc', '1.5.5k', '-', '٣', '99999999999999999999', 'nan', '9999999999999999999999k', 'kb', '.', '-k']),
+    'String': ('Name', ['[', '(', '(?P<', '\\', '*[', '%[', 'a{2', '**', '']),
+}
+
+
+def fam_literals(sess):
+    """a well-formed comparison whose literal cannot be interpreted (boolean, date, number, pattern): the real Searcher::conforms from
+    MIR on column OP literal for every operator — every path ends in a verdict or in error_exit (status 2), never in a panic"""
+    from drivers import c13
+    from mirsym.models_std import Str
+    from mirsym.core import some, none, EnumV
+    from mirsym.models_fmt import NumStr
+    prog = sess.prog
+    fam = 'literals'
+    pds = (r'^parse_date_string$|^chrono_english::parse_date_string$',
+           lambda ctx, args, callee: (c13.ok(c13.DateC(ctx.fresh_bv('ce_day', 64) & 0xffff, c13.u32(0), c13.u32(0), c13.u32(0))) if ctx.decide(ctx.fresh_bool('chrono_english_ok')) else c13.err(Str('bad date'))),
+           'chrono-english:parse_date_string (Ok(any instant) | Err; contract: does not panic)')
+    ov = [pds] + c13.concrete_chrono() + [E.GFV_OVERRIDE, E.CONVERT_OVERRIDE]
+    ex = sess.executor(ov, unwind=40)
+    sess.bounds[fam] = {t: {'column': c, 'literals': l} for t, (c, l) in BAD_LITERALS.items()}
+    sess.bounds[fam]['operators'] = E.OPS[:12]
+    viol = {}
+    st = {'paths': 0, 'exits': 0, 'bad': {}}
+    for ty, (col, lits) in BAD_LITERALS.items():
+        for op in E.OPS[:12]:
+            for lit in lits:
+                def run(ctx, ty=ty, col=col, op=op, lit=lit):
+                    d = c13.DateC(BitVecVal(18000, 64), c13.u32(1), c13.u32(2), c13.u32(3))
+                    vals = {'IsDir': E.mk_variant(prog, 'Bool', bool_value=some(BoolVal(True)), string_value=Str('true')),
+                            'Modified': E.mk_variant(prog, 'DateTime', string_value=Str('2019-04-14 01:02:03'), int_value=some(BitVecVal(0, 64)), dt_from=some(d), dt_to=some(d)),
+                            'Size': E.mk_variant(prog, 'Int', int_value=some(BitVecVal(12, 64)), string_value=Str('12')),
+                            'Name': E.mk_variant(prog, 'String', string_value=Str('a.txt'))}
+                    ctx.ghost['fields'] = vals
+                    e = E.expr_cmp(prog, E.expr_field(prog, col), E.op_enum(prog, op), E.expr_value(prog, lit))
+                    return E.run_conforms(ctx, prog, e)
+
+                def on_path(ctx, out, ty=ty, col=col, op=op, lit=lit):
+                    st['paths'] += 1
+                    if out[0] == 'ret':
+                        return
+                    if out[0] == 'exit':
+                        st['exits'] += 1
+                        if out[1] != 2:
+                            sess.violated('%s: %s %s %r' % (fam, col, op, lit), 'literals/exit-status/' + ty, 'exits with status %r' % (out[1],), {}, None, fam)
+                        return
+                    if out[0] == 'panic':
+                        where_ = str(out[1]).split('[in ')[-1].rstrip(']').replace(' ', ':') if '[in ' in str(out[1]) else 'x'
+                        role = 'literals/panic/%s/%s' % (ty, where_)
+                        if viol.get(role):
+                            return
+                        viol[role] = True
+                        q = "name from . where %s %s '%s'" % (col_sql(col), E.OP_TEXT.get(op, op.lower()), lit)
+
+                        def rep(q=q):
+                            exe = common.native_binary()
+                            r = common.run_cli(exe, [q], {'a.txt': {'size': 12}, 'd': {'kind': 'dir'}}, timeout=5)
+                            return r['status'] not in (0, 1, 2), 'fselect "%s" exits with status %s: %s' % (q, r['status'], r['stderr'].strip()[:160])
+                        sess.violated('%s: %s %s %r' % (fam, col, op, lit), role, str(out[1])[:200], {'query': q}, rep, fam)
+                        return
+                    st['bad'].setdefault(str(out)[:160], (col, op, lit))
+                ex.explore(run, on_path)
+    for what, (col, op, lit) in list(st['bad'].items())[:6]:
+        sess.inconclusive('%s: %s %s %r' % (fam, col, op, lit), what, fam)
+    if not viol and not st['bad']:
+        sess.discharged('literals: %d column / operator / literal combinations end in a verdict or a status-2 diagnostic (%d paths, %d of them error_exit)' % (
+            sum(len(l) for _, l in BAD_LITERALS.values()) * 12, st['paths'], st['exits']), family=fam, queries=st['paths'])
+
+
+def col_sql(c):
+    import re as _re
+    return _re.sub(r'(?<!^)([A-Z])', r'_\1', c).lower()
+
+
+E2E_BAD = ["name from 't[' depth 1 rx", "name from 'R0/(' rx", "name from R0 where name =~ '['", "name from R0 where name like '%['", "name from R0 where is_dir = maybe",
+           "name from R0 where size = 'abc'", "name, substr(name, 'x') from R0", "name from R0 order by 7", "name from R0 limit x", "name from R0 into nope",
+           "name from R0 where name = 'a' and", "name from R0 where (size > 1", "min(name), name from R0 group by", "name from R0 where size between 1"]
+
+
+def fam_e2e_bad(sess):
+    """whole program (real main::exec_search from MIR: lexer, parser, searcher, writer) on concrete query texts that are malformed or
+    carry a literal / root pattern that cannot be interpreted: every path returns a status in {0, 1, 2} or calls exit(2); none panics"""
+    from drivers import e2e
+    prog = sess.prog
+    fam = 'e2e_bad'
+    qs = E2E_BAD if sess.tier != 'quick' else E2E_BAD[:8]
+    sess.bounds[fam] = {'queries': qs, 'nodes': 3}
+    for text in qs:
+        ex = sess.executor(e2e.overrides(), unwind=403, maxsteps=4000000)
+        box = {'paths': 0}
+
+        def runp(ctx, text=text):
+            return e2e.run_query(ctx, prog, text, 3)
+
+        def on_path(ctx, out, text=text):
+            box['paths'] += 1
+            nm = '%s `%s`' % (fam, text)
+            if out[0] == 'ret':
+                fs, status = out[1]
+                if ctx.check(And(status != 0, status != 1, status != 2)) != z3.unsat and not box.get('viol'):
+                    box['viol'] = True
+                    sess.violated(nm, 'e2e_bad/status', 'returns a status outside 0..2', {'query': text}, cli_replay_text(text), fam)
+                return
+            if out[0] == 'exit':
+                if out[1] not in (0, 1, 2) and not box.get('viol'):
+                    box['viol'] = True
+                    sess.violated(nm, 'e2e_bad/status', 'exit(%r)' % (out[1],), {'query': text}, cli_replay_text(text), fam)
+                return
+            if out[0] == 'panic':
+                if not box.get('viol'):
+                    box['viol'] = True
+                    where_ = str(out[1]).split('[in ')[-1].rstrip(']').split(' ')[0] if '[in ' in str(out[1]) else 'x'
+                    sess.violated(nm, 'e2e_bad/panic/' + where_, str(out[1])[:200], {'query': text}, cli_replay_text(text), fam)
+                return
+            if not box.get('bad'):
+                box['bad'] = True; sess.inconclusive(nm, str(out)[:300], fam)
+        n, complete = ex.explore(runp, on_path, time_budget=120)
+        if not complete:
+            sess.inconclusive('%s `%s`' % (fam, text), 'time budget exceeded after %d paths' % n, fam)
+        elif not box.get('viol') and not box.get('bad'):
+            sess.discharged('%s `%s`: status 0..2 on every path' % (fam, text), family=fam, queries=box['paths'])
+
+
+def cli_replay_text(text):
+    def rep():
+        exe = common.native_binary()
+        tree = {'R0': {'kind': 'dir'}, 'R0/a.txt': {'size': 3}, 'R0/d': {'kind': 'dir'}}
+        r = common.run_cli(exe, [text], tree, timeout=5)
+        if r['timed_out']:
+            return True, 'fselect "%s" does not terminate (killed after 5 s)' % text
+        return r['status'] not in (0, 1, 2), 'fselect "%s" exits with status %s: %s' % (text, r['status'], r['stderr'].strip()[:160])
+    return rep
+
+
 def main(sess):
     sess.engines = ['mirsym (MIR symbolic execution) + z3']
     sess.assumptions += [
@@ -271,6 +410,10 @@ def main(sess):
     for fam in fams:
         if not only or fam in only:
             run_family(sess, fam)
+    if not only or 'literals' in only:
+        fam_literals(sess)
+    if not only or 'e2e_bad' in only:
+        fam_e2e_bad(sess)
     if not only or 'eval' in only:
         # evaluation-time crashes: arithmetic on arbitrary operands (driver of C15)
         from drivers import c15, c16
